@@ -2,6 +2,7 @@ import NrDaemon.Lemmas.Proc
 import NrDaemon.Lemmas.Lifecycle
 import NrDaemon.Lemmas.AppKey
 import NrDaemon.Gen.AppKey
+import NrDaemon.Gen.Skeleton
 /-!
   C04 — applications are isolated from each other.
 -/
@@ -196,3 +197,30 @@ theorem C04_appkey_tied :
     Gen.AppKey.hashCollects = "policies=append(policies,name)" ∧ Gen.AppKey.hashSorts = true ∧
     Gen.AppKey.hashJoinSep = "\"\"" ∧ Gen.AppKey.hashFn = "sha256.New" := by
   decide
+
+/-- `processTxnData` / `processSpanBatch` today: data is routed by run id only, an unknown id is dropped before anything else
+happens; the transaction is decoded under a deferred `recover` (C10) -/
+def reviewedProcessTxnData : List String := [
+  "h, ok := p.harvests[d.ID]",
+  "if !ok {",
+  "return",
+  "}",
+  "h.App.LastActivity = time.Now(…)",
+  "defer func(){if err := recover(…); err!=nil {; }}()",
+  "d.Sample.AggregateInto(…)"
+]
+def reviewedProcessSpanBatch : List String := [
+  "h, ok := p.harvests[d.id]",
+  "if !ok {",
+  "return",
+  "}",
+  "if h.TraceObserver!=nil {",
+  "h.TraceObserver.QueueBatch(…)",
+  "}",
+  "else {",
+  "}"
+]
+
+/-- **C04 (tie: routing by run id is the code's).** -/
+theorem C04_routing_source_tied :
+    Gen.Skeleton.processTxnData = reviewedProcessTxnData ∧ Gen.Skeleton.processSpanBatch = reviewedProcessSpanBatch := ⟨rfl, rfl⟩
